@@ -10,7 +10,8 @@ VARIABLES phase, chunk, idx
 vars == <<phase, chunk, idx>>
 ChunkSize == 4096
 Size(ph) == CASE ph = "slot" -> 2 ^ 20 [] ph = "emb" -> 2 ^ 16 [] ph = "rt" -> Len(D.rt) [] ph = "cor" -> Len(D.cor)
-Init == /\ phase \in {"slot", "emb", "rt", "cor"}
+\* D.phases: the exhaustive word phases and the round trips are judged in the first run only, corruption records in slices
+Init == /\ phase \in SeqSet(D.phases)
         /\ chunk \in 0..((Size(phase) + ChunkSize - 1) \div ChunkSize - 1) /\ idx = -1
 Next == idx = -1 /\ idx' \in (chunk * ChunkSize)..((chunk + 1) * ChunkSize - 1) /\ idx' < Size(phase) /\ UNCHANGED <<phase, chunk>>
 Spec == Init /\ [][Next]_vars
